@@ -306,8 +306,9 @@ def show_dim(d):
 
 
 # --------------------------------------------------------------------------- #
-def rule_shapes(F, ev, R, config, rule="R-SHAPES"):
-    """conformance of every matrix operation on the problem / statistics code paths"""
+def rule_shapes(F, ev, R, config, rule="R-SHAPES", parts=("set_params", "jacobian", "statistics", "best_fit")):
+    """conformance of every matrix operation on the problem / statistics code paths; `parts` selects the code paths a
+    property is about (a property about the Jacobian does not speak about the statistics)"""
     from rules_panic import nosite
     from rules_problem import resolve_cache_roles_by_use
     from rules_stats2 import ctor_fields, args_by_type, find_model_jacobian, stats_roles
@@ -355,7 +356,7 @@ def rule_shapes(F, ev, R, config, rule="R-SHAPES"):
     for self_ty, ms in sorted(lsp_impls(F).items()):
         fl = flavour_of(self_ty)
         b = ms.get("set_params")
-        if b is not None:
+        if b is not None and "set_params" in parts:
             import rules_err
             ax = problem_axioms(b.key)
             terms = []
@@ -384,7 +385,7 @@ def rule_shapes(F, ev, R, config, rule="R-SHAPES"):
             except ShapeError as e:
                 R.bad(rule, config, b.key, "cache-shapes@" + fl, str(e))
         jb = ms.get("jacobian")
-        if jb is not None:
+        if jb is not None and "jacobian" in parts:
             from rules_problem2 import jacobian_column_write
             ax = problem_axioms(jb.key)
             try:
@@ -404,6 +405,8 @@ def rule_shapes(F, ev, R, config, rule="R-SHAPES"):
                 R.bad(rule, config, jb.key, "jacobian-column@%s:undetermined" % fl, str(ex))
     # ---- statistics ----
     try:
+        if "statistics" not in parts:
+            raise StopIteration
         b, env, f, s, sbi = ctor_fields(F, ev)
         a = args_by_type(b)
         model = a["model"]
@@ -427,12 +430,14 @@ def rule_shapes(F, ev, R, config, rule="R-SHAPES"):
         okc = sc == (want, want)
         R.add(rule, config, b.key, "covariance:(B+P)×(B+P)", okc, "" if okc else "covariance has shape %s×%s" % (show_dim(sc[0]), show_dim(sc[1])))
         total += len(shp.checked)
+    except StopIteration:
+        pass
     except (ShapeError, AnchorMissing) as e:
         R.bad(rule, config, "statistics", "undetermined", str(e))
     # ---- best_fit ----
     fr = struct_fields(F, ADT_FITRESULT)
     pf = [x["name"] for x in fr if x.get("adt") == ADT_PROBLEM][0]
-    for b in inherent_methods(F, ADT_FITRESULT, "best_fit"):
+    for b in (inherent_methods(F, ADT_FITRESULT, "best_fit") if "best_fit" in parts else []):
         me = ("field", ("param", b.key, 1), pf)
         model = ("field", me, pr["model"])
         cache = ("payload", ("field", me, pr["cache"]), "ok", "0")
@@ -442,7 +447,9 @@ def rule_shapes(F, ev, R, config, rule="R-SHAPES"):
         if alts:
             run(b.key, "best_fit", [("value", alts[0][1])], ax)
     # C07: R is never contracted — every product met had R only as the column space of its right factor
-    R.floor(rule, config, 6 if config == "default" else 9, "set_params ×3, jacobian column, statistics ×2, best_fit ×2 per flavour")
+    per = {"set_params": (3, 6), "jacobian": (1, 2), "statistics": (2, 2), "best_fit": (0, 0)}
+    nmin = sum(per[p_][0 if config == "default" else 1] for p_ in parts if p_ in per)
+    R.floor(rule, config, min(nmin, 6 if config == "default" else 9), "set_params ×3, jacobian column, statistics ×2 (per selected part and flavour)")
 
 
 def strip_m(t):
